@@ -187,8 +187,9 @@ namespace sim
 				std::int64_t const last = std::stoll(range.substr(range.find_first_of('-') + 1));
 				// "+ 1" below must not overflow (the request is closed like any other
 				// malformed one)
-				if (last == (std::numeric_limits<std::int64_t>::max)())
-					throw std::out_of_range("range end");
+				if (start < 0 || last < start
+					|| last == (std::numeric_limits<std::int64_t>::max)())
+					throw std::out_of_range("range");
 				end = last + 1;
 			}
 
